@@ -10,7 +10,8 @@ RULE = ('Differential against refcodec (an encoder/decoder written from the spec
         'b"".join(marshal(...)) must equal the reference bytes. decode: reference bytes (including shapes txdbus '
         'cannot produce: variant in variant, unix fd in variant) must unmarshal to the encoded value and consume '
         'every byte. grid (exhaustive): 17 type codes x offsets 0..63 x 2 byte orders, pad length == (-off) mod '
-        'alignment and all pad bytes zero. Non-trivial as in C01; distinct = distinct canonical JSON case.')
+        'alignment and all pad bytes zero. no_encoding: strings with an embedded NUL (plain, in arrays, dict keys / '
+        'values, structs, variants) have no encoding and must be refused with MarshallingError. Non-trivial as in C01; distinct = distinct canonical JSON case.')
 ASSUMPTIONS = ['refcodec is the trusted base; it shares no code or tables with txdbus'] + [
     'same input-domain guards as C01']
 
@@ -58,6 +59,30 @@ def run_decode(case):
     return out
 
 
+def enum_no_encoding(tier):
+    """Values for which the specification defines NO encoding (a string with an embedded NUL cannot be NUL-terminated
+    text): the encoder must refuse them, not emit bytes another implementation would read as something else."""
+    for text in ('\x00', 'a\x00b', 'ab\x00', '\x00ab'):
+        for sig, val in (('s', [text]), ('as', [['ok', text]]), ('a{ss}', [{'k': text}]), ('a{ss}', [{text: 'v'}]),
+                         ('(is)', [(1, text)]), ('v', [text])):
+            for le in (True, False):
+                yield {'sig': sig, 'value': repr(val), 'le': le}
+
+
+def run_no_encoding(case):
+    from txdbus import marshal as M
+    from txdbus.error import MarshallingError
+    val = eval(case['value'], {})
+    try:
+        n, chunks = M.marshal(case['sig'], val, 0, case['le'])
+    except MarshallingError:
+        return []
+    except Exception as e:
+        return [Disc(exc_key(e, 'enc.nul.wrong-exception'), exc_detail(e))]
+    return [Disc('enc.nul.string-with-embedded-NUL-encoded', 'sig %r value %s -> %s' % (
+        case['sig'], case['value'], b''.join(chunks).hex()))]
+
+
 SUBCHECKS = [
     Subcheck('encode', run_encode, C.classify_marshal,
              strategy=lambda tier: C.marshal_case(tier),
@@ -71,4 +96,8 @@ SUBCHECKS = [
     Subcheck('grid_dec', run_decode, C.classify_marshal,
              enumerate=lambda tier: C.grid_cases(64), shards={'quick': 2, 'thorough': 2},
              exhaustive_note='17 type codes x 64 start offsets x 2 byte orders, decode direction'),
+    Subcheck('no_encoding', run_no_encoding, lambda c: (True, ['embedded_nul']), enumerate=enum_no_encoding,
+             shards={'quick': 1, 'thorough': 1},
+             exhaustive_note='4 strings with an embedded NUL x 6 positions (plain, array element, dict key / value, struct '
+                             'member, variant content) x 2 byte orders must be refused with MarshallingError'),
 ]
